@@ -165,13 +165,31 @@ def build_site(loop, hlog):
             pass
 
     class ObsAccept(R.ObservableResource):
-        render_get = render_post = render_put = render_delete = render_fetch = render_patch = render_ipatch = Outcome._handle
+        """... and one that accepts; like any writable observable resource it announces a state change when written to"""
+
+        render_get = render_delete = render_fetch = render_patch = render_ipatch = Outcome._handle
+
+        async def _write(self, request):
+            key = bytes(request.token)
+            self.writes[key] = self.writes.get(key, 0) + 1
+            if self.writes[key] > 4:
+                # the same write request is being executed over and over: break the loop (the count is judged)
+                raise RuntimeError("write request re-executed")
+            resp = await Outcome._handle(self, request)
+            self.updated_state()
+            return resp
+
+        writes = {}
+        render_put = render_post = _write
 
     site = R.Site()
     site.add_resource(["o"], Outcome())
     site.add_resource(["od"], ObsDecline())
-    site.add_resource(["oa"], ObsAccept())
+    oa = ObsAccept()
+    oa.writes = {}
+    site.add_resource(["oa"], oa)
     site.add_resource(["getonly"], GetOnly())
+    site._c09_obs_accept = oa
     return site, names
 
 
@@ -228,7 +246,7 @@ def run_requests(reqs, seed, rep, case, with_site=True, fault=None):
         # a later, ordinary request must be answered normally
         peers[0].send(S, rc.Msg(rc.CON, 1, 0xFFF0, b"\xee\xee", ((11, b"o"),), b"0;0.0;9999"))
         await asyncio.sleep(1.0)
-        box.update(net=net, S=S, peers=[p.addr for p in peers], hlog=hlog, names=names)
+        box.update(net=net, S=S, peers=[p.addr for p in peers], hlog=hlog, names=names, writes=dict(getattr(site, "_c09_obs_accept").writes))
         await srv.shutdown()
         return True
 
@@ -255,6 +273,10 @@ def judge(reqs, res, box, rep, case, table, with_site=True, fault=None):
             rep.violation("exception-text-leaked", "text of a non-renderable exception / wrong return value appears in a datagram", wit(event=e.brief()), case)
             break
     many = len(reqs) > 1
+    for tok, n in box.get("writes", {}).items():
+        if n > 1:
+            rep.violation("write-request-executed-%s" % ("repeatedly" if n > 4 else "%d-times" % n), "one PUT/POST request was handed to its handler %s times: the request was taken for an observation registration and re-rendered for every state change (the one it causes itself included)" % (n if n <= 4 else "more than 4"), wit(token=tok.hex()), case)
+            break
     for q in reqs:
         if fault is not None and q["peer"] == fault["peer"]:
             rep.count("requests_of_failed_peer_not_judged")
@@ -374,6 +396,12 @@ def run_shard(shard, rep, only=None):
             for delay in (0.0, 0.3):
                 for obs in ("decline", "accept"):
                     cells.append(("o", oi, 1, typ, delay, obs))
+    # Observe: 0 on a write request to a writable observable resource
+    for name in ("return-with-code-2.05", "return-without-code", "return-with-code-4.03"):
+        for method in (2, 3):
+            for typ in (rc.CON, rc.NON):
+                for obs in ("decline", "accept"):
+                    cells.append(("o", names.index(name), method, typ, 0.0, obs))
     for ci, cell in enumerate(cells):
         kind, oi, method, typ, delay = cell[:5]
         if ci % of != idx:
